@@ -3,6 +3,7 @@ package props
 import (
 	"go/ast"
 	"go/token"
+	"go/types"
 	"regexp/syntax"
 	"strings"
 
@@ -68,6 +69,18 @@ func runC20(c *core.Ctx) {
 				walk(be.X)
 				walk(be.Y)
 				return
+			}
+			// a local boolean defined once by an expression stands for that expression
+			if id, ok := e.(*ast.Ident); ok {
+				if v, isVar := info.ObjectOf(id).(*types.Var); isVar && types.Identical(v.Type(), types.Typ[types.Bool]) {
+					defs := core.AssignsTo(info, fn.Decl, v)
+					if len(defs) == 1 {
+						if as, ok := defs[0].(*ast.AssignStmt); ok && len(as.Rhs) == 1 {
+							walk(as.Rhs[0])
+							return
+						}
+					}
+				}
 			}
 			disj = append(disj, strings.ReplaceAll(core.ExprStr(e), " ", ""))
 		}
